@@ -345,10 +345,8 @@ class Responder():
                                            httping.STATUS_DESCRIPTIONS[self.status])
 
         startLine = "{0} {1}".format(self.HttpVersionString, self.status)
-        try:
-            startLine = startLine.encode('ascii')
-        except UnicodeEncodeError:
-            startLine = startLine.encode('idna')
+        # WSGI status is a native string of latin-1 characters (PEP 3333)
+        startLine = startLine.encode('iso-8859-1')
         lines.append(startLine)
 
         # Override if AttributiveGenerator
